@@ -59,3 +59,294 @@ pub fn probes() -> Vec<(&'static str, u64)> {
         .map(|(i, n)| (*n, PROBE_COUNTS[i].load(Ordering::Relaxed)))
         .collect()
 }
+
+/// Kademlia internals (private sub-modules re-exported by `kademlia::verif_export`).
+pub mod kademlia {
+    pub use crate::protocol::libp2p::kademlia::verif_export::*;
+}
+
+/// Bitswap internals.
+pub mod bitswap {
+    pub use crate::protocol::libp2p::bitswap::verif_export::*;
+}
+
+/// Protocol-set / connection-handle internals.
+pub mod protocol {
+    pub use crate::protocol::verif_export::*;
+}
+
+/// Wrap one end of a yamux stream into the real [`crate::substream::Substream`] exactly as
+/// `TcpConnection` does (`tcp::Substream::new` + `Substream::new_tcp`).
+pub fn substream_over_yamux(
+    peer: crate::PeerId,
+    substream_id: usize,
+    stream: crate::yamux::Stream,
+    codec: crate::codec::ProtocolCodec,
+    lifetime_permit: Option<crate::protocol::Permit>,
+) -> crate::substream::Substream {
+    use tokio_util::compat::FuturesAsyncReadCompatExt;
+
+    let socket = FuturesAsyncReadCompatExt::compat(stream);
+    crate::substream::Substream::new_tcp(
+        peer,
+        crate::types::SubstreamId::from(substream_id),
+        crate::transport::tcp::Substream::new(
+            socket,
+            crate::BandwidthSink::new(),
+            lifetime_permit,
+        ),
+        codec,
+    )
+}
+
+/// Transport-manager facade: scripted transports and state snapshots.
+pub mod manager {
+    use crate::{
+        error::DialError,
+        transport::{Endpoint, Transport, TransportEvent},
+        types::ConnectionId,
+        PeerId,
+    };
+    use futures::{future::BoxFuture, Stream};
+    use multiaddr::Multiaddr;
+    use std::{
+        pin::Pin,
+        task::{Context, Poll},
+    };
+
+    pub use crate::transport::manager::{
+        ProtocolContext, SupportedTransport, TransportHandle, TransportManager,
+        TransportManagerBuilder, TransportManagerEvent, TransportManagerHandle,
+    };
+
+    /// Mirror of the crate-private `TransportEvent`.
+    #[derive(Debug)]
+    pub enum VTransportEvent {
+        ConnectionEstablished {
+            peer: PeerId,
+            endpoint: Endpoint,
+        },
+        PendingInboundConnection {
+            connection_id: ConnectionId,
+        },
+        ConnectionOpened {
+            connection_id: ConnectionId,
+            address: Multiaddr,
+            errors: Vec<(Multiaddr, DialError)>,
+        },
+        ConnectionClosed {
+            peer: PeerId,
+            connection_id: ConnectionId,
+        },
+        DialFailure {
+            connection_id: ConnectionId,
+            address: Multiaddr,
+            error: DialError,
+        },
+        OpenFailure {
+            connection_id: ConnectionId,
+            errors: Vec<(Multiaddr, DialError)>,
+        },
+    }
+
+    impl From<TransportEvent> for VTransportEvent {
+        fn from(event: TransportEvent) -> Self {
+            match event {
+                TransportEvent::ConnectionEstablished { peer, endpoint } =>
+                    VTransportEvent::ConnectionEstablished { peer, endpoint },
+                TransportEvent::PendingInboundConnection { connection_id } =>
+                    VTransportEvent::PendingInboundConnection { connection_id },
+                TransportEvent::ConnectionOpened {
+                    connection_id,
+                    address,
+                    errors,
+                } => VTransportEvent::ConnectionOpened {
+                    connection_id,
+                    address,
+                    errors,
+                },
+                TransportEvent::ConnectionClosed {
+                    peer,
+                    connection_id,
+                } => VTransportEvent::ConnectionClosed {
+                    peer,
+                    connection_id,
+                },
+                TransportEvent::DialFailure {
+                    connection_id,
+                    address,
+                    error,
+                } => VTransportEvent::DialFailure {
+                    connection_id,
+                    address,
+                    error,
+                },
+                TransportEvent::OpenFailure {
+                    connection_id,
+                    errors,
+                } => VTransportEvent::OpenFailure {
+                    connection_id,
+                    errors,
+                },
+            }
+        }
+    }
+
+    impl From<VTransportEvent> for TransportEvent {
+        fn from(event: VTransportEvent) -> Self {
+            match event {
+                VTransportEvent::ConnectionEstablished { peer, endpoint } =>
+                    TransportEvent::ConnectionEstablished { peer, endpoint },
+                VTransportEvent::PendingInboundConnection { connection_id } =>
+                    TransportEvent::PendingInboundConnection { connection_id },
+                VTransportEvent::ConnectionOpened {
+                    connection_id,
+                    address,
+                    errors,
+                } => TransportEvent::ConnectionOpened {
+                    connection_id,
+                    address,
+                    errors,
+                },
+                VTransportEvent::ConnectionClosed {
+                    peer,
+                    connection_id,
+                } => TransportEvent::ConnectionClosed {
+                    peer,
+                    connection_id,
+                },
+                VTransportEvent::DialFailure {
+                    connection_id,
+                    address,
+                    error,
+                } => TransportEvent::DialFailure {
+                    connection_id,
+                    address,
+                    error,
+                },
+                VTransportEvent::OpenFailure {
+                    connection_id,
+                    errors,
+                } => TransportEvent::OpenFailure {
+                    connection_id,
+                    errors,
+                },
+            }
+        }
+    }
+
+    /// Mirror of the crate-private `Transport` trait, implemented by the harness.
+    pub trait ScriptedTransport: Send + Unpin {
+        fn dial(&mut self, connection_id: ConnectionId, address: Multiaddr) -> crate::Result<()>;
+        fn accept(
+            &mut self,
+            connection_id: ConnectionId,
+        ) -> crate::Result<BoxFuture<'static, crate::Result<()>>>;
+        fn accept_pending(&mut self, connection_id: ConnectionId) -> crate::Result<()>;
+        fn reject_pending(&mut self, connection_id: ConnectionId) -> crate::Result<()>;
+        fn reject(&mut self, connection_id: ConnectionId) -> crate::Result<()>;
+        fn open(
+            &mut self,
+            connection_id: ConnectionId,
+            addresses: Vec<Multiaddr>,
+        ) -> crate::Result<()>;
+        fn negotiate(&mut self, connection_id: ConnectionId) -> crate::Result<()>;
+        fn cancel(&mut self, connection_id: ConnectionId);
+        fn poll_event(&mut self, cx: &mut Context<'_>) -> Poll<Option<VTransportEvent>>;
+    }
+
+    struct Adapter(Box<dyn ScriptedTransport>);
+
+    impl Stream for Adapter {
+        type Item = TransportEvent;
+
+        fn poll_next(mut self: Pin<&mut Self>, cx: &mut Context<'_>) -> Poll<Option<Self::Item>> {
+            self.0.poll_event(cx).map(|event| event.map(Into::into))
+        }
+    }
+
+    impl Transport for Adapter {
+        fn dial(&mut self, connection_id: ConnectionId, address: Multiaddr) -> crate::Result<()> {
+            self.0.dial(connection_id, address)
+        }
+
+        fn accept(
+            &mut self,
+            connection_id: ConnectionId,
+        ) -> crate::Result<BoxFuture<'static, crate::Result<()>>> {
+            self.0.accept(connection_id)
+        }
+
+        fn accept_pending(&mut self, connection_id: ConnectionId) -> crate::Result<()> {
+            self.0.accept_pending(connection_id)
+        }
+
+        fn reject_pending(&mut self, connection_id: ConnectionId) -> crate::Result<()> {
+            self.0.reject_pending(connection_id)
+        }
+
+        fn reject(&mut self, connection_id: ConnectionId) -> crate::Result<()> {
+            self.0.reject(connection_id)
+        }
+
+        fn open(
+            &mut self,
+            connection_id: ConnectionId,
+            addresses: Vec<Multiaddr>,
+        ) -> crate::Result<()> {
+            self.0.open(connection_id, addresses)
+        }
+
+        fn negotiate(&mut self, connection_id: ConnectionId) -> crate::Result<()> {
+            self.0.negotiate(connection_id)
+        }
+
+        fn cancel(&mut self, connection_id: ConnectionId) {
+            self.0.cancel(connection_id)
+        }
+    }
+
+    /// Register a scripted transport under `name` with the real manager.
+    pub fn register_scripted_transport(
+        manager: &mut TransportManager,
+        name: SupportedTransport,
+        transport: Box<dyn ScriptedTransport>,
+    ) {
+        manager.register_transport(name, Box::new(Adapter(transport)));
+    }
+
+    /// Poll the next event of the real manager (`TransportManager::next()` is crate-private in
+    /// its return type).
+    pub async fn manager_next(manager: &mut TransportManager) -> Option<VTransportEvent> {
+        manager.next().await.map(Into::into)
+    }
+
+    /// `Endpoint::dialer` (crate-private constructor).
+    pub fn endpoint_dialer(address: Multiaddr, connection_id: ConnectionId) -> Endpoint {
+        Endpoint::dialer(address, connection_id)
+    }
+
+    /// `Endpoint::listener` (crate-private constructor).
+    pub fn endpoint_listener(address: Multiaddr, connection_id: ConnectionId) -> Endpoint {
+        Endpoint::listener(address, connection_id)
+    }
+
+    /// Does the TCP transport's own address parser accept `address`? Returns the peer ID found.
+    pub fn tcp_parse_address(address: &Multiaddr) -> Result<Option<PeerId>, String> {
+        use crate::transport::common::listener::{GetSocketAddr, TcpAddress};
+
+        TcpAddress::multiaddr_to_socket_address(address)
+            .map(|(_, peer)| peer)
+            .map_err(|error| format!("{error:?}"))
+    }
+
+    /// Does the WebSocket transport's own address parser accept `address`?
+    #[cfg(feature = "websocket")]
+    pub fn websocket_parse_address(address: &Multiaddr) -> Result<Option<PeerId>, String> {
+        use crate::transport::common::listener::{GetSocketAddr, WebSocketAddress};
+
+        WebSocketAddress::multiaddr_to_socket_address(address)
+            .map(|(_, peer)| peer)
+            .map_err(|error| format!("{error:?}"))
+    }
+}
